@@ -57,7 +57,11 @@ def detect(d, ids):
     try:
         for pid in ids:
             t0 = time.time()
-            rc, out = sh("./check %s --tier quick" % pid, cwd=VERIF)
+            try:
+                rc, out = sh("./check %s --tier quick" % pid, cwd=VERIF, timeout=900)
+            except subprocess.TimeoutExpired:
+                sh("pkill -f 'harness/core.py %s'" % pid)
+                rc, out = 2, "CHECK-BROKEN: no verdict within 900 s"
             lines = [l for l in out.splitlines() if l.startswith(("PASS", "VIOLATION", "KNOWN-FINDING", "CHECK-BROKEN", "  "))]
             verdicts[pid] = {"rc": rc, "lines": lines[:6], "secs": round(time.time() - t0, 1)}
     finally:
